@@ -292,6 +292,78 @@ fn w_save_prefix() -> bool {
     !matches!(r, Ok(Ok(ref s)) if s == "Integer(777)")
 }
 
+/// PDF with an xref stream; `compressed` = (object number, body) stored in object stream number `stm`
+pub fn mkpdf_objstm(objs: &[(u64, &str)], stm: u64, compressed: &[(u64, &str)], xref_nr: u64) -> Vec<u8> {
+    let mut out = b"%PDF-1.5\n".to_vec();
+    let max = xref_nr;
+    let mut entries: Vec<(u8, u64, u64)> = vec![(0, 0, 65535); max as usize + 1];
+    for (n, body) in objs {
+        entries[*n as usize] = (1, out.len() as u64, 0);
+        out.extend_from_slice(format!("{} 0 obj\n{}\nendobj\n", n, body).as_bytes());
+    }
+    // object stream
+    let mut head = String::new();
+    let mut bodytxt = String::new();
+    for (i, (n, b)) in compressed.iter().enumerate() {
+        head.push_str(&format!("{} {} ", n, bodytxt.len()));
+        bodytxt.push_str(b);
+        if i + 1 < compressed.len() { bodytxt.push(' '); }
+        entries[*n as usize] = (2, stm, i as u64);
+    }
+    let data = format!("{}{}", head, bodytxt);
+    entries[stm as usize] = (1, out.len() as u64, 0);
+    out.extend_from_slice(format!("{} 0 obj\n<< /Type /ObjStm /N {} /First {} /Length {} >>\nstream\n{}\nendstream\nendobj\n",
+        stm, compressed.len(), head.len(), data.len(), data).as_bytes());
+    let xpos = out.len() as u64;
+    entries[xref_nr as usize] = (1, xpos, 0);
+    let mut xdata = Vec::new();
+    for (t, a, b) in &entries {
+        xdata.push(*t);
+        xdata.extend_from_slice(&(*a as u32).to_be_bytes());
+        xdata.extend_from_slice(&(*b as u16).to_be_bytes());
+    }
+    out.extend_from_slice(format!("{} 0 obj\n<< /Type /XRef /Size {} /W [1 4 2] /Root 1 0 R /Length {} >>\nstream\n", xref_nr, max + 1, xdata.len()).as_bytes());
+    out.extend_from_slice(&xdata);
+    out.extend_from_slice(format!("\nendstream\nendobj\nstartxref\n{}\n%%EOF", xpos).as_bytes());
+    out
+}
+
+fn w_update_compressed() -> bool {
+    use pdf::file::FileOptions;
+    use pdf::object::*;
+    let data = mkpdf_objstm(&[(1, CATALOG), (2, PAGES), (3, PAGE)], 5, &[(4, "132")], 6);
+    let mut file = FileOptions::uncached().load(data).unwrap();
+    let before = file.resolver().resolve(PlainRef { id: 4, gen: 0 }).map(|p| format!("{:?}", p));
+    let r = file.update(PlainRef { id: 4, gen: 0 }, 777i32).unwrap();
+    let returned = r.get_ref().get_inner();
+    let path = std::env::temp_dir().join("verif_w_update_compressed.pdf");
+    file.save_to(&path).unwrap();
+    let saved = std::fs::read(&path).unwrap();
+    let _ = std::fs::remove_file(&path);
+    let re = FileOptions::uncached().load(saved).unwrap();
+    let after = re.resolver().resolve(PlainRef { id: 4, gen: 0 }).map(|p| format!("{:?}", p)).map_err(|e| e.to_string());
+    println!("4 0 R before: {:?}; update(4 0 R, 777) returned {:?}; after save+reload 4 0 R = {:?}", before, returned, after);
+    returned != (PlainRef { id: 4, gen: 0 }) || after != Ok("Integer(777)".to_string())
+}
+
+fn w_failed_save_retry() -> bool {
+    use pdf::file::FileOptions;
+    use pdf::object::*;
+    let data = mkpdf(&[(1, CATALOG), (2, PAGES), (3, PAGE), (4, "132"),
+        (5, "<< /Length 3 >>\nstream\nabc\nendstream")], "");
+    let mut file = FileOptions::uncached().load(data).unwrap();
+    // an object that cannot be written: a stream whose data still lives in the source file
+    let in_file_stream = file.resolver().resolve(PlainRef { id: 5, gen: 0 }).unwrap();
+    file.update(PlainRef { id: 4, gen: 0 }, in_file_stream).unwrap();
+    let path = std::env::temp_dir().join("verif_w_failed_save.pdf");
+    let first = file.save_to(&path).map_err(|e| e.to_string().chars().take(60).collect::<String>());
+    file.update(PlainRef { id: 4, gen: 0 }, 5i32).unwrap();          // replace the offending object
+    let second = file.save_to(&path).map_err(|e| e.to_string().chars().take(60).collect::<String>());
+    let _ = std::fs::remove_file(&path);
+    println!("save with an unwritable object: {:?}; retry after replacing it: {:?}", first, second);
+    first.is_err() && second.is_err()
+}
+
 fn main() {
     let all: Vec<(&str, fn() -> bool)> = vec![
         ("lzw_predictor", w_lzw_predictor),
@@ -306,6 +378,8 @@ fn main() {
         ("conc_assert_poison", w_conc_assert_poison),
         ("conc_deadlock", w_conc_deadlock),
         ("save_prefix", w_save_prefix),
+        ("update_compressed", w_update_compressed),
+        ("failed_save_retry", w_failed_save_retry),
     ];
     let want: Vec<String> = std::env::args().skip(1).collect();
     for (n, f) in all {
